@@ -269,3 +269,90 @@ def subscriber_idle_reply(gaps=(2.6,)):
         return problems, stats
     finally:
         srv.stop()
+
+
+# ---- mixed load: many connections, every command family, a handful of shared keys -----------------------------------------
+def _mixed_cmd(rnd, keys, u):
+    """One valid command over the shared keys (types get mixed up by RENAME / DEL / the STORE commands: WRONGTYPE answers are
+    fine - only answering matters here)."""
+    k = lambda: rnd.choice(keys)
+    t = rnd.randrange(44)
+    table = [
+        lambda: ["SET", k(), u], lambda: ["GET", k()], lambda: ["APPEND", k(), u], lambda: ["INCR", k()], lambda: ["STRLEN", k()],
+        lambda: ["MGET", k(), k(), k()], lambda: ["MSET", k(), u, k(), u], lambda: ["DEL", k(), k()], lambda: ["EXISTS", k(), k(), k()],
+        lambda: ["RENAME", k(), k()], lambda: ["TYPE", k()], lambda: ["TTL", k()], lambda: ["EXPIRE", k(), "100"], lambda: ["PERSIST", k()],
+        lambda: ["LPUSH", k(), u], lambda: ["RPUSH", k(), u, u], lambda: ["LPOP", k()], lambda: ["RPOP", k()], lambda: ["LRANGE", k(), "0", "-1"],
+        lambda: ["LMOVE", k(), k(), "LEFT", "RIGHT"], lambda: ["LLEN", k()], lambda: ["LTRIM", k(), "0", "3"], lambda: ["LINDEX", k(), "0"],
+        lambda: ["SADD", k(), u, "m"], lambda: ["SREM", k(), "m"], lambda: ["SMEMBERS", k()], lambda: ["SMOVE", k(), k(), "m"], lambda: ["SPOP", k()],
+        lambda: ["SUNIONSTORE", k(), k(), k()], lambda: ["SINTERSTORE", k(), k(), k()], lambda: ["SDIFFSTORE", k(), k(), k()], lambda: ["SUNION", k(), k()],
+        lambda: ["HSET", k(), "f", u], lambda: ["HGETALL", k()], lambda: ["HDEL", k(), "f"], lambda: ["HINCRBY", k(), "n", "1"], lambda: ["HKEYS", k()],
+        lambda: ["ZADD", k(), "1", u], lambda: ["ZRANGE", k(), "0", "-1"], lambda: ["ZREM", k(), u], lambda: ["ZRANK", k(), u],
+        lambda: ["XADD", k(), "*", "f", u], lambda: ["XRANGE", k(), "-", "+"], lambda: ["KEYS", "*"],
+    ]
+    return table[t % len(table)]()
+
+
+def mixed_load(seed=1, conns=8, seconds=4.0, nkeys=6):
+    """`conns` connections send random valid commands of every family over `nkeys` shared keys for `seconds`; afterwards a
+    fresh connection must get an answer about every key. Verdicts: a command not answered within 12 s while the server
+    process is alive (confirmed by fresh probes of every key with 5 s each), or the server died. Replies are not judged."""
+    import random, threading
+    srv = server.Server(shardnum=4)          # few stripes: the shared keys collide on them
+    keys = ["mx%d" % i for i in range(nkeys)]
+    probs, stats = [], {"connections": conns, "seconds": seconds, "commands": 0, "keys": nkeys}
+    stop = time.time() + seconds
+    hung, lock = [], threading.Lock()
+
+    def worker(ci):
+        rnd = random.Random(seed * 1000 + ci)
+        n = 0
+        try:
+            c = srv.client(timeout=12.0)
+        except Exception as e:
+            with lock:
+                hung.append((ci, ["<connect>"], repr(e)))
+            return
+        try:
+            while time.time() < stop:
+                argv = _mixed_cmd(rnd, keys, "c%dv%d" % (ci, n))
+                try:
+                    c.cmd(*argv)
+                except Exception as e:
+                    with lock:
+                        hung.append((ci, argv, repr(e)))
+                    return
+                n += 1
+        finally:
+            with lock:
+                stats["commands"] += n
+            c.close()
+
+    try:
+        ths = [threading.Thread(target=worker, args=(i,)) for i in range(conns)]
+        for t in ths:
+            t.start()
+        for t in ths:
+            t.join(seconds + 40)
+        if not srv.alive():
+            probs.append({"kind": "server-died", "detail": "the server process died under mixed load: " + srv.tail(1200)})
+            return probs, stats
+        # fresh probes of every key (and of the server itself)
+        dead = []
+        for kname in keys + ["<ping>"]:
+            try:
+                c = srv.client(timeout=5.0)
+                (c.cmd("PING") if kname == "<ping>" else c.cmd("TYPE", kname))
+                c.close()
+            except Exception as e:
+                dead.append(kname)
+        stats["unanswered_under_load"] = len(hung)
+        if dead and srv.alive():
+            first = hung[0] if hung else (None, None, "")
+            probs.append({"kind": "wedged", "keys_not_answering": dead, "first_unanswered": {"connection": first[0], "argv": first[1], "error": first[2]},
+                          "detail": "after %d commands of mixed load on %d shared keys a fresh connection gets no answer to TYPE for %s within 5 s (first command that was never answered: %s)" % (
+                              stats["commands"], nkeys, ", ".join(dead), " ".join(first[1]) if first[1] else "none")})
+        elif hung and not srv.alive():
+            probs.append({"kind": "server-died", "detail": "the server process died under mixed load: " + srv.tail(1200)})
+        return probs, stats
+    finally:
+        srv.stop()
